@@ -6,7 +6,7 @@ from tsg.flow import var_of, cond_edges_dominating, is_reachable
 from tsg.typestate import member_writes, must_pass_after, must_pass_before
 from tsg.effects import Effects
 from tsg.peval import PEval
-from tsg.sym import NotClosedForm
+from tsg.sym import NotClosedForm, to_sympy
 from tsg.build import AnalysisBroken
 
 GRIDS = ["Global", "Sequence", "LocalPolynomial", "Wavelet", "Fourier"]
@@ -51,6 +51,141 @@ def hierarchy_relations(chk, db, rule_id):
     return n
 
 
+def expand_rules(chk, db):
+    if "C09-D3.expand" not in chk.rules:
+        chk.rule("C09-D3.expand", "single-point expansion: descendant indices are shifted after the point is inserted and before their surpluses are updated; the tree is rebuilt; Sequence inserts the surplus strip at the slot of the new point")
+    nd3 = 0
+    for f in db.fns("TasGrid::GridLocalPolynomial::expandGrid"):
+        chk.saw(f)
+        nd3 += 1
+        ins = [c for c in f.calls() if (callee(c) or "").endswith("::addSortedIndexes") and txt(strip(call_object(c))) == "points"]
+        shift = [n for n in f.walk() if n.get("k") == "UnaryOperator" and n.get("op") == "++" and txt(strip(n["c"][0])) == "g"]
+        upd = [c for c in f.calls() if (callee(c) or "").endswith("::updateSurpluses")]
+        tree = [c for c in f.calls() if (callee(c) or "").endswith("::buildTree")]
+        sub = [c for c in f.calls() if (callee(c) or "").endswith("::getSubGraph")]
+        ok = len(ins) == 1 and len(shift) == 1 and len(upd) >= 1 and bool(tree) and bool(sub)
+        detail = "insert %d, shift %d, update %d, buildTree %d, getSubGraph %d" % (len(ins), len(shift), len(upd), len(tree), len(sub))
+        if ok:
+            ok = sub[0].get("l", 0) < ins[0].get("l", 0) < shift[0].get("l", 0) < upd[0].get("l", 0)
+            # the shift is guarded by g >= newindex
+            edges = [(txt(strip(c)), tr) for c, tr in cond_edges_dominating(f, shift[0])]
+            ok = ok and ("g >= newindex", True) in edges
+            detail += "; shift guard %s" % [e for e in edges if "newindex" in e[0]]
+        chk.ob("C09-D3.expand", f.key, "sub-graph taken before, indices shifted after the insertion and before the update", ok, f.where, detail)
+    for f in db.fns("TasGrid::GridSequence::expandGrid"):
+        chk.saw(f)
+        nd3 += 1
+        ap = [c for c in f.calls() if (callee(c) or "").endswith("::appendStrip") and txt(strip(call_object(c))) == "surpluses"]
+        ins = [c for c in f.calls() if (callee(c) or "").endswith("::addSortedIndexes")]
+        ok = len(ap) == 1 and len(ins) == 1 and ins[0].get("l", 0) < ap[0].get("l", 0) and txt(strip(call_args(ap[0])[0])) == "points.getSlot(point)"
+        chk.ob("C09-D3.expand", f.key, "surplus strip inserted at the slot of the new point after the index is inserted", ok, f.where)
+    chk.floor("C09-D3.expand", nd3, 6, "expandGrid implementations")
+    # the strip insertion kernel
+    for f in db.fns("TasGrid::Data2D<double>::appendStrip") + db.fns("TasGrid::Data2D<int>::appendStrip", required=False):
+        if len(f.params()) != 2 or "int" not in f.params()[0]["t"]:
+            continue
+        chk.saw(f)
+        ins = [c for c in f.calls() if (callee(c) or "").endswith("::insert")]
+        okk = False
+        if ins:
+            # first argument: vec.begin() + offset; the offset must equal pos * stride as a polynomial in the named variables
+            a0 = next((q for q in walk(call_args(ins[0])[0]) if q.get("k") == "CXXOperatorCallExpr" and q.get("op") == "+"), None)
+            pos = f.params()[0]["name"]
+            if a0 is not None:
+                ch = [c for c in a0.get("c", []) if isinstance(c, dict)]
+                base, off = strip(ch[-2]), ch[-1]
+                def byname(n):
+                    if n.get("k") in ("DeclRefExpr", "MemberExpr") and (n.get("var") or n.get("field")):
+                        return sympy.Symbol(short(n.get("field") or n.get("var")), integer=True, nonnegative=True)
+                    return None
+                try:
+                    e = to_sympy(off, byname)
+                    okk = (callee(base) or "").endswith("::begin") and txt(strip(call_object(base)) or {}) == "vec" and \
+                        sympy.expand(e - sympy.Symbol(pos, integer=True, nonnegative=True) * sympy.Symbol("stride", integer=True, nonnegative=True)) == 0
+                except NotClosedForm:
+                    okk = False
+        chk.ob("C09-D3.expand", f.key + f.sig, "strip inserted at offset pos * stride", okk, f.where, txt(call_args(ins[0])[0])[:80] if ins else "no insert")
+
+
+
+def _disjuncts(c):
+    c = strip(c)
+    if c is not None and c.get("k") == "BinaryOperator" and c.get("op") == "||":
+        return _disjuncts(c["c"][0]) + _disjuncts(c["c"][1])
+    return [c]
+
+
+def root_rule(chk, db, rule_id):
+    pe = PEval(db)
+
+    def insts(name):
+        return {f.d.get("targs", "").rsplit("::", 1)[-1]: f for f in db.fns(RL + name, [HPP]) if f.d.get("targs")}
+    GP, GL = insts("getParent"), insts("getLevel")
+    # the batch route: level-zero points are those without a parent
+    lz = [f for f in db.fns("TasGrid::HierarchyManipulations::getLevelZeroPoints") if f.d.get("targs")]
+    for f in lz:
+        if not any((callee(c) or "").endswith("RuleLocal::getParent") for c in f.calls()):
+            raise AnalysisBroken("getLevelZeroPoints no longer defines the roots through getParent: re-derive the reference of C09-D6")
+    n = 0
+    for f in db.fns("TasGrid::GridLocalPolynomial::loadConstructedPoint"):
+        if not f.d.get("targs") or len(f.params()) != 2:
+            continue
+        r = f.d["targs"].rsplit("::", 1)[-1]
+        ex = [c for c in f.calls(into_lambda=False) if (callee(c) or "").endswith("::expandGrid")]
+        if not ex:
+            continue
+        iff = next((a for a in f.ancestors(ex[0]) if a.get("k") == "IfStmt"), None)
+        if iff is None:
+            n += 1
+            chk.saw(f)
+            chk.ob(rule_id, f.key, "expandGrid is unconditional", False, f.where, "a point without relatives would be inserted into a disconnected hierarchy")
+            continue
+        loc = {d["did"]: d for d in f.locals().values() if "did" in d}
+        preds = []
+        for dj in _disjuncts(iff.get("cond")):
+            if dj.get("k") == "DeclRefExpr" and dj.get("var") == "isConnected":
+                continue
+            pred = None
+            v = None
+            if dj.get("k") == "BinaryOperator" and dj.get("op") == "==" and txt(strip(dj["c"][1])) == "0":
+                v = strip(dj["c"][0])
+            if v is not None and v.get("k") == "DeclRefExpr" and v.get("did") in loc:
+                # accumulated level: every write is the initialiser or `+=`, all of them getLevel<rule>(p[..]) -> per component getLevel(k) == 0
+                d = loc[v["did"]]
+                terms = [strip(c) for c in d.get("c", []) if isinstance(c, dict)]
+                for q in f.walk():
+                    if q.get("k") in ("BinaryOperator", "CompoundAssignOperator") and q.get("op") in ("=", "+=", "-=", "*=") and strip(q["c"][0]).get("did") == v["did"]:
+                        terms.append(strip(q["c"][1]) if q["op"] == "+=" else None)
+                if terms and all(t is not None and t.get("k") == "CallExpr" and (callee(t) or "").endswith("RuleLocal::getLevel") for t in terms) and r in GL:
+                    pred = ("getLevel<%s>(k) == 0" % r, lambda k, r=r: int(pe.call(GL[r], [sympy.Integer(k)])) == 0)
+            cand = dj
+            if dj.get("k") == "DeclRefExpr" and dj.get("did") in loc:
+                ini = [c for c in loc[dj["did"]].get("c", []) if isinstance(c, dict)]
+                cand = strip(ini[0]) if ini else dj
+            if pred is None and cand.get("k") == "CallExpr" and (callee(cand) or "") in ("std::all_of",):
+                lam = next((q for q in walk(cand) if q.get("k") == "LambdaExpr"), None)
+                lf = [g for g in db.all_functions([f.file]) if g.d.get("islambda") and g.key == "%s::lambda@%d" % (f.key, lam.get("l", 0))] if lam else []
+                if lf:
+                    pred = ("all components satisfy the lambda @%d" % lam.get("l", 0), lambda k, g=lf[0]: bool(pe.call(g, [sympy.Integer(k)]) in (sympy.true, 1, True)))
+            preds.append((txt(dj), pred))
+        n += 1
+        chk.saw(f)
+        if not preds or any(p is None for t, p in preds):
+            raise AnalysisBroken("admission test of %s is not in an analysable form: %s" % (f.key, [t for t, p in preds if p is None]))
+        bad = []
+        try:
+            for k in range(NPTS):
+                got = any(p[1](k) for t, p in preds)
+                want = int(pe.call(GP[r], [sympy.Integer(k)])) == -1
+                if got != want:
+                    bad.append("component index %d: admitted as parent-less = %s, getParent<%s>(%d) == -1 is %s" % (k, got, r, k, want))
+        except NotClosedForm as e:
+            raise AnalysisBroken("root predicate of %s not evaluable: %s" % (f.key, e))
+        chk.ob(rule_id, f.key, "parent-less admission `%s`" % " || ".join(t for t, p in preds), not bad, f.loc(iff), "; ".join(bad[:2]) if bad else "; ".join(p[0] for t, p in preds),
+               "the roots of the batch route")
+    return n
+
+
 def run(chk):
     db = DB("serial")
     db.load_all()
@@ -59,7 +194,6 @@ def run(chk):
                               "parked samples leave the store only through extractValues / ejectCompleteTensor whose results are merged into the values")
     chk.rule("C09-D2.candidates", "construction candidates exclude loaded points: addExclusiveChildren appends a tensor only if it is missing from both the excluded and the current set; "
                                   "local/wavelet candidates come from the refinement collector (C07-D3) minus the initial points")
-    chk.rule("C09-D3.expand", "single-point expansion: descendant indices are shifted after the point is inserted and before their surpluses are updated; the tree is rebuilt; Sequence inserts the surplus strip at the slot of the new point")
     chk.rule("C09-D4.relations", "the downward hierarchy relation used by the incremental update is the inverse of the upward relations used for surpluses (arrival order of a parent after its step-child must still refresh the child)")
 
     # ------------------------------------------------------------------ D1
@@ -139,44 +273,7 @@ def run(chk):
             chk.ob("C09-D2.candidates", f.key + f.sig, "candidates = refinement candidates minus initial points", ok, f.where, t[:160])
 
     # ------------------------------------------------------------------ D3
-    nd3 = 0
-    for f in db.fns("TasGrid::GridLocalPolynomial::expandGrid"):
-        chk.saw(f)
-        nd3 += 1
-        ins = [c for c in f.calls() if (callee(c) or "").endswith("::addSortedIndexes") and txt(strip(call_object(c))) == "points"]
-        shift = [n for n in f.walk() if n.get("k") == "UnaryOperator" and n.get("op") == "++" and txt(strip(n["c"][0])) == "g"]
-        upd = [c for c in f.calls() if (callee(c) or "").endswith("::updateSurpluses")]
-        tree = [c for c in f.calls() if (callee(c) or "").endswith("::buildTree")]
-        sub = [c for c in f.calls() if (callee(c) or "").endswith("::getSubGraph")]
-        ok = len(ins) == 1 and len(shift) == 1 and len(upd) >= 1 and bool(tree) and bool(sub)
-        detail = "insert %d, shift %d, update %d, buildTree %d, getSubGraph %d" % (len(ins), len(shift), len(upd), len(tree), len(sub))
-        if ok:
-            ok = sub[0].get("l", 0) < ins[0].get("l", 0) < shift[0].get("l", 0) < upd[0].get("l", 0)
-            # the shift is guarded by g >= newindex
-            edges = [(txt(strip(c)), tr) for c, tr in cond_edges_dominating(f, shift[0])]
-            ok = ok and ("g >= newindex", True) in edges
-            detail += "; shift guard %s" % [e for e in edges if "newindex" in e[0]]
-        chk.ob("C09-D3.expand", f.key, "sub-graph taken before, indices shifted after the insertion and before the update", ok, f.where, detail)
-    for f in db.fns("TasGrid::GridSequence::expandGrid"):
-        chk.saw(f)
-        nd3 += 1
-        ap = [c for c in f.calls() if (callee(c) or "").endswith("::appendStrip") and txt(strip(call_object(c))) == "surpluses"]
-        ins = [c for c in f.calls() if (callee(c) or "").endswith("::addSortedIndexes")]
-        ok = len(ap) == 1 and len(ins) == 1 and ins[0].get("l", 0) < ap[0].get("l", 0) and txt(strip(call_args(ap[0])[0])) == "points.getSlot(point)"
-        chk.ob("C09-D3.expand", f.key, "surplus strip inserted at the slot of the new point after the index is inserted", ok, f.where)
-    chk.floor("C09-D3.expand", nd3, 6, "expandGrid implementations")
-    # the strip insertion kernel
-    for f in db.fns("TasGrid::Data2D<double>::appendStrip") + db.fns("TasGrid::Data2D<int>::appendStrip", required=False):
-        if len(f.params()) != 2 or "int" not in f.params()[0]["t"]:
-            continue
-        chk.saw(f)
-        ins = [c for c in f.calls() if (callee(c) or "").endswith("::insert")]
-        okk = False
-        if ins:
-            a = txt(strip(call_args(ins[0])[0])).replace(" ", "")
-            pos = f.params()[0]["name"]
-            okk = ("%s*stride" % pos) in a or ("stride*%s" % pos) in a or "size_mult" in a
-        chk.ob("C09-D3.expand", f.key + f.sig, "strip inserted at offset pos * stride", okk, f.where, txt(call_args(ins[0])[0])[:80] if ins else "no insert")
+    expand_rules(chk, db)
 
     # ------------------------------------------------------------------ D5
     chk.rule("C09-D5.eject", "GridGlobal: after a sample is parked (addNewNode) and after a missing tensor is registered (addTensor, which may find the tensor already complete), every path to the exit "
@@ -207,6 +304,67 @@ def run(chk):
                             how = "on the tensor_complete edge"
                 chk.ob("C09-D5.eject", f.key + f.sig, "addNewNode @%d: a completed tensor is loaded" % c.get("l", 0), ok, f.loc(c), how)
     chk.floor("C09-D5.eject", nd5, 4, "parking / registration sites in GridGlobal::loadConstructedPoint")
+
+    # ------------------------------------------------------------------ D7
+    chk.rule("C09-D7.flags", "typestate of the per-tensor sample flags: 'complete' is represented by an empty `loaded` vector (the only state ejectCompleteTensor and getNodesIndexes recognise); "
+                             "every routine that sets a flag passes, on every path to its exit, a completeness test over the flags whose true edge empties the vector")
+    nd7 = 0
+    for f in db.all_functions(["SparseGrids/tsgDConstructGridGlobal.cpp", "SparseGrids/tsgDConstructGridGlobal.hpp"]):
+        if f.cls != "TasGrid::DynamicConstructorDataGlobal" or f.d.get("islambda"):
+            continue
+        sets = []
+        for q in f.walk():
+            if q.get("k") in ("BinaryOperator", "CXXOperatorCallExpr") and q.get("op") == "=":
+                ch = [c for c in q.get("c", []) if isinstance(c, dict)]
+                lhs = ch[-2] if q["k"] == "CXXOperatorCallExpr" else ch[0]
+                if any(x.get("k") == "CXXOperatorCallExpr" and x.get("op") == "[]" for x in walk(lhs)) and any(short(x.get("field") or "") == "loaded" for x in walk(lhs)) \
+                        and "true" in txt(ch[-1]):
+                    sets.append(q)
+        if not sets:
+            continue
+        chk.saw(f)
+
+        def normalises(x):
+            if (callee(x) or "") != "std::all_of" or not any(short(y.get("field") or "") == "loaded" for y in walk(x)):
+                return False
+            iff = next((a for a in f.ancestors(x) if a.get("k") == "IfStmt"), None)
+            if iff is None or not any(y is x for y in walk(iff.get("cond"))):
+                return False
+            for y in walk(iff.get("then")):
+                t = txt(y)
+                if ((callee(y) or "").endswith("::clear") and "loaded" in txt(strip(call_object(y)) or {})) or \
+                        (y.get("k") == "CXXOperatorCallExpr" and y.get("op") == "=" and ".loaded = " in t and ("vector<bool>()" in t or "vector()" in t)):
+                    return True
+            return False
+        # a normalisation that runs for every element of the container the flag write iterates over: the loop header stands for it
+        # (the zero-trip path is infeasible, the write happened inside an iteration over the same, unmodified container)
+        headers = {}
+        for q in f.walk():
+            if q.get("k") == "CXXForRangeStmt" and q.get("range") is not None:
+                inner = [x for x in walk(q.get("body")) if x.get("k") == "CallExpr" and normalises(x)]
+                for x in inner:
+                    chain = []
+                    for a in f.ancestors(x):
+                        if a is q:
+                            break
+                        chain.append(a)
+                    if sum(1 for a in chain if a.get("k") in ("IfStmt", "ForStmt", "WhileStmt", "CXXForRangeStmt", "SwitchStmt", "ConditionalOperator")) == 1:   # only its own if
+                        headers[id(strip(q["range"]))] = txt(strip(q["range"]))
+                        headers[id(q["range"])] = txt(strip(q["range"]))
+        grows = any((callee(c) or "").endswith(("::erase_after", "::pop_front", "::clear", "::remove_if")) and txt(strip(call_object(c)) or {}) == "tensors" for c in f.calls())
+        for w in sets:
+            nd7 += 1
+            over = {txt(strip(a["range"])) for a in f.ancestors(w) if a.get("k") == "CXXForRangeStmt" and a.get("range") is not None}
+            ok = bool(must_pass_after(f, w, lambda x: normalises(x) or (not grows and headers.get(id(x)) in over)))
+            chk.ob("C09-D7.flags", f.key, "flag set @%d is followed by the completeness test" % w.get("l", 0), ok, f.loc(w),
+                   "" if ok else "a tensor whose samples are all present leaves %s with all flags true but not marked complete: it is never ejected and its samples are dropped" % short(f.name))
+    chk.floor("C09-D7.flags", nd7, 3, "flag writes in DynamicConstructorDataGlobal")
+
+    # ------------------------------------------------------------------ D6
+    chk.rule("C09-D6.roots", "the single-sample route admits a point without loaded relatives exactly when the batch route (getLargestConnected / getLevelZeroPoints: getParent == -1 in every "
+                             "direction) treats it as a root: per component, the admission predicate equals getParent<rule>(k) == -1 for k = 0..%d" % (NPTS - 1))
+    nd6 = root_rule(chk, db, "C09-D6.roots")
+    chk.floor("C09-D6.roots", nd6, 5, "instantiations of the single-sample admission test")
 
     # ------------------------------------------------------------------ D4
     nr = hierarchy_relations(chk, db, "C09-D4.relations")
